@@ -1,6 +1,7 @@
 import BearVerif.Lemmas.BearCompile3
 import BearVerif.Lemmas.BearTable
 import BearVerif.Lemmas.BearAlias
+import BearVerif.Lemmas.Bfs
 /-!
   C01 — no false alarms. Statements only use definitions of `Core/Bear.lean` and
   `Core/BearExpr.lean`: `sat` is the published meaning at full depth, `chk` the sampled
@@ -101,5 +102,21 @@ theorem C01_alias_no_false_alarm (W : World) (hW : W.Wf) (conf : Conf) (r : Nat)
 -- non-vacuity: `type R = int | list[R]` (a := 99): [[1]] conforms at approximation depth 3, and to the 2-unrolling
 example : sat W0 (unroll 99 (.union [.cls 4, .seq 6 (.cls 99)]) Hint.bot 3) (list_ [list_ [int_ 1]]) = true ∧
     sat W0 (unroll 99 (.union [.cls 4, .seq 6 (.cls 99)]) .any 2) (list_ [list_ [int_ 1]]) = true := by decide +kernel
+
+/-- **The code generator's placeholder mechanism equals the recursive composition** that `gen` (and every theorem
+    above) is about. `make_check_expr` visits hints breadth-first; each visit produces the hint's snippet in which
+    children are unique placeholders, enqueues the children and splices the snippet into the code generated so far
+    (`str.replace`). For EVERY snippet tree — any branching, any depth — after at most `root.size` visits the queue is
+    empty, no placeholder is left, and the text is the recursive in-place composition of the snippets. (Tied to
+    /repo on every run by replaying the real snippets of each generated hint through `Bfs.run`/`Node.flat`.) -/
+theorem C01_placeholder_mechanism (root : Bfs.Node) :
+    (Bfs.run root.size (Bfs.init root)).queue = [] ∧
+    Bfs.Code.holeFree (Bfs.run root.size (Bfs.init root)).code = true ∧
+    Bfs.Code.text (Bfs.run root.size (Bfs.init root)).code = root.flat :=
+  Bfs.bfs_eq_flat root
+
+-- non-vacuity: a root with two children, the second of which has a child of its own
+example : Bfs.Code.text (Bfs.run 4 (Bfs.init (.mk [.txt "a", .child (.mk [.txt "b"]), .txt "c",
+    .child (.mk [.txt "d", .child (.mk [.txt "e"])])]))).code = ["a", "b", "c", "d", "e"] := by decide +kernel
 
 end BearVerif.Bear
